@@ -26,7 +26,7 @@
    of the current chain), index_store_agree, reopen_reproduces for clean shutdowns (equality of
    the rebuilt index) and minimality of the evicted account for a freshly built heap are
    checked by correspondence and the Go oracle only. *)
-From GV Require Import Lib.Tactics Pool.Blob Pool.BlobProofs Pool.BlobAddProofs Pool.BlobResetProofs Pool.BlobInitProofs Pool.BlobLimboProofs Pool.BlobLimboReset Pool.BlobRollingProofs Pool.BlobRollingTip Pool.BlobRollingWitness Pool.BlobWitness Pool.BlobWitness2.
+From GV Require Import Lib.Tactics Pool.Blob Pool.BlobProofs Pool.BlobAddProofs Pool.BlobResetProofs Pool.BlobInitProofs Pool.BlobLimboProofs Pool.BlobLimboReset Pool.BlobLimboFrame Pool.BlobLimboEntry Pool.BlobRollingProofs Pool.BlobRollingTip Pool.BlobRollingReset Pool.BlobReopenProofs Pool.BlobRollingWitness Pool.BlobWitness Pool.BlobWitness2.
 Local Open Scope N_scope.
 
 (* blob_contiguous, list level: whatever recheck's threshold loop keeps has consecutive nonces
@@ -98,6 +98,26 @@ Theorem C42_eviction_fields_prefix_minima_through_histories : forall prioE prioB
 Proof. exact hrun_rinv. Qed.
 Print Assumptions C42_eviction_fields_prefix_minima_through_histories.
 
+(* ... and over the same histories as C42_inv_through_all_histories (Add / SetGasTip / Reset /
+   restart, clean or abrupt): recheck recomputes the fields of every account it touches from
+   scratch, Init rechecks every account *)
+Theorem C42_eviction_fields_prefix_minima_through_all_histories :
+  forall prioE prioB gtE gtB nearE nearB c ll ops p q,
+  Inv p -> RInv p -> hguard prioE prioB gtE gtB nearE nearB c ll ops p ->
+  hrun2 prioE prioB gtE gtB nearE nearB c ll ops p = Ok q -> RInv q.
+Proof. exact hrun2_rinv. Qed.
+Print Assumptions C42_eviction_fields_prefix_minima_through_all_histories.
+
+Theorem C42_reset_keeps_prefix_minima : forall prioE prioB nearE nearB ll bs newh final p q,
+  Inv p -> RInv p -> pool_reset prioE prioB nearE nearB false ll bs newh final p = Ok q -> RInv q.
+Proof. exact reset_rinv. Qed.
+Print Assumptions C42_reset_keeps_prefix_minima.
+
+Theorem C42_init_establishes_prefix_minima : forall prioE prioB gtE gtB c qimg limg head tip q,
+  pool_init prioE prioB gtE gtB c false qimg limg head tip = Ok q -> RInv q.
+Proof. exact init_rinv. Qed.
+Print Assumptions C42_init_establishes_prefix_minima.
+
 (* the recomputation must reach the tail: a variant that stops at the first transaction whose tip
    and exec-fee minima did not change leaves a stale blob-fee minimum two positions after a
    replaced blob-fee bottleneck, while the full recomputation of the same list is correct *)
@@ -150,7 +170,7 @@ Print Assumptions C42_set_gas_tip_preserves_inv.
    whatever the nonces, order, duplicates, gaps and balance, the account comes out well-formed
    for the chain state and no other account is touched *)
 Theorem C42_recheck_establishes_account_invariant : forall prioE prioB a incl p q,
-  recheck prioE prioB false a incl p = Ok q -> wf_acct p a -> frame a p q /\ acct_ok q a.
+  recheck prioE prioB false a incl p = Ok q -> wf_acct p a -> frame a p q /\ acct_ok q a /\ rk q a.
 Proof. exact recheck_ok. Qed.
 Print Assumptions C42_recheck_establishes_account_invariant.
 
@@ -199,6 +219,35 @@ Theorem C42_reset_leaves_nothing_finalised_in_limbo : forall prioE prioB nearE n
 Proof. exact reset_finalises. Qed.
 Print Assumptions C42_reset_leaves_nothing_finalised_in_limbo.
 
+(* the limbo changes in Reset and restart only: Add (with replacement, promotion, eviction) and
+   SetGasTip leave it untouched ... *)
+Theorem C42_add_and_tip_leave_limbo_alone : forall prioE prioB gtE gtB c ops p q,
+  hrun prioE prioB gtE gtB c ops p = Ok q -> p_limbo q = p_limbo p.
+Proof. exact hrun_limbo. Qed.
+Print Assumptions C42_add_and_tip_leave_limbo_alone.
+
+(* ... so finalised entries stay deleted over histories: after a Reset that finalised [final]
+   (from ANY pool state, either version of the code) and any number of Adds / SetGasTips, the limbo
+   holds no group at or below [final] *)
+Theorem C42_finalised_entries_stay_deleted : forall prioE prioB gtE gtB nearE nearB c lg ll bs newh final p0 p ops q,
+  pool_reset prioE prioB nearE nearB lg ll bs newh final p0 = Ok p ->
+  hrun prioE prioB gtE gtB c ops p = Ok q ->
+  forall blk, blk <= final -> aget (l_groups (p_limbo q)) blk = None.
+Proof. exact finalised_gone_history. Qed.
+Print Assumptions C42_finalised_entries_stay_deleted.
+
+(* soundness of what enters the limbo: offload is the only producer; during a Reset it records a
+   stored transaction under the number of a block that is reachable from the NEW head by parent
+   links (the current chain) and contains that transaction *)
+Theorem C42_limbo_entries_are_inclusions_of_the_current_chain : forall bs oldh newh ro id p q,
+  reorg bs oldh newh = Some ro ->
+  offload id (inclusions_of (ro_incl ro)) p = Ok q ->
+  p_limbo q = p_limbo p \/
+  exists it blk b t, p_limbo q = limbo_push (p_limbo p) (i_tx it) blk /\
+                     reach bs newh b /\ b_num b = blk /\ In t (b_txs b) /\ bt_id t = t_id (i_tx it).
+Proof. exact reset_push_sound. Qed.
+Print Assumptions C42_limbo_entries_are_inclusions_of_the_current_chain.
+
 (* limbo.push of an untracked transaction records it under the including block *)
 Theorem C42_limbo_push_records_block : forall l t blk b id,
   aget (l_index l) (t_id t) = None ->
@@ -224,6 +273,37 @@ Theorem C42_eviction_loop_ends_within_datacap : forall prioE prioB gtE gtB c fue
   drop_loop prioE prioB gtE gtB c fuel p = Ok q -> p_stored q <= c_datacap c.
 Proof. exact drop_loop_cap. Qed.
 Print Assumptions C42_eviction_loop_ends_within_datacap.
+
+(* reopen_reproduces, the pool-side half (clean shutdown).  recheck as Init runs it leaves a
+   well-formed account exactly as it is: nothing is dropped, whatever order the store hands the
+   entries back in ... *)
+Theorem C42_recheck_keeps_wellformed_account : forall prioE prioB a p l0 first tl,
+  aget (p_index p) a = Some l0 ->
+  sort_metas l0 = first :: tl ->
+  chain (first :: tl) -> m_nonce first = nonce_of p a ->
+  aget (p_spent p) a = Some (sum_cost l0) -> sum_cost l0 <= bal_of p a ->
+  (length (first :: tl) <= maxTxsPerAccount)%nat ->
+  recheck prioE prioB false a None p =
+  Ok (set_index (aset (aset (p_index p) a (first :: tl)) a (reev None (first :: tl) 0)) p).
+Proof. exact recheck_keeps_wellformed. Qed.
+Print Assumptions C42_recheck_keeps_wellformed_account.
+
+(* ... so for the running pool p (Inv, prefix minima, within the cap) and the pool x that Init has
+   built by tracking the store entries (any order, fresh store ids, fields unset, same chain
+   state): if the nonce-sorted tracked entries of an account carry the transactions of p's list,
+   the reopened account has the same transactions in the same order, the same three eviction
+   fields and the same spent total.  What is NOT proved is the store half: that billy's
+   Close + Open (compaction) hands back exactly the live entries, each once. *)
+Theorem C42_reopen_account_reproduces : forall prioE prioB a p x s l0 s0,
+  aget (p_index p) a = Some s -> acct_ok p a -> rk p a -> (length s <= maxTxsPerAccount)%nat ->
+  p_nonce x = p_nonce p -> p_bal x = p_bal p ->
+  aget (p_index x) a = Some l0 -> sort_metas l0 = s0 -> map m_tx s0 = map m_tx s ->
+  aget (p_spent x) a = Some (sum_cost l0) ->
+  exists y s2, recheck prioE prioB false a None x = Ok y /\
+    aget (p_index y) a = Some s2 /\ map m_tx s2 = map m_tx s /\ map evs s2 = map evs s /\
+    aget (p_spent y) a = aget (p_spent p) a.
+Proof. exact reopen_account. Qed.
+Print Assumptions C42_reopen_account_reproduces.
 
 (* crash cuts: every entry a clean Close leaves on disk is on disk, unchanged, after an abrupt
    stop (Delete never touches the disk: an abrupt stop can only resurrect entries) *)
